@@ -313,6 +313,15 @@ def mon_c04(sc, res):
                     continue
                 path = cget(params, b"path") if is_obj(params) else None
                 mine = [v for v in resp if cget(v, b"id") == rid] if (is_id(rid) and (c, repr(rid)) not in dups) else []
+                if len(mine) != 1 and not uncertain and isinstance(path, bytes) and path not in unknown and not is_id(rid) \
+                        and cget(r, b"id") is None and c not in closed:
+                    # a notification (no id at all): nothing tells its outcome, but a request that MUST be refused has no effect
+                    # whether it is answered or not - the reference map stays as it is and the next state image is compared with it
+                    must_refuse = (method == b"change" and not (path in R and R[path][0] == c and R[path][1] == "state" and has_member(params, b"value"))) or \
+                                  (method == b"remove" and not (path in R and R[path][0] == c)) or \
+                                  (method == b"add" and path in R)
+                    if must_refuse:
+                        continue
                 if len(mine) != 1 or (isinstance(path, bytes) and path in unknown) or uncertain:
                     # outcome not observable (no id / duplicated id / connection dropped): resynchronise at the next snapshot
                     if isinstance(path, bytes):
